@@ -161,6 +161,12 @@ def _closure_effect(prog, cpath):
                 eff = ("const", v["int"])
             elif v["k"] in ("copy", "move") and not v["place"]["p"]:
                 r = _root(defs, v["place"]["l"])
+                if r[0] == "call" and _callee(r[2]).split("::")[-1] in ("wrapping_add", "wrapping_sub", "saturating_add", "saturating_sub") \
+                        and len(r[2]["args"]) == 2 and r[2]["args"][1]["k"] == "const" and r[2]["args"][1].get("int") is not None \
+                        and r[2]["args"][0]["k"] in ("copy", "move") and not r[2]["args"][0]["place"]["p"]:
+                    # `d.get().wrapping_add(1)`: the same ±c as far as balance is concerned
+                    op_ = _callee(r[2]).split("::")[-1]
+                    r = ("binop", {"op": "Add" if op_.endswith("add") else "Sub", "l": r[2]["args"][0], "r": r[2]["args"][1]})
                 if r[0] == "const":
                     eff = ("const", r[1])
                 elif r[0] == "binop" and r[1]["op"].startswith(("Add", "Sub")) and r[1]["r"]["k"] == "const" and r[1]["r"].get("int") is not None \
@@ -199,7 +205,7 @@ def ops(prog, b):
             continue
         key = _key_of(b, defs, t["args"][0])
         if key is None:
-            out.append({"key": None, "bb": i, "line": t["line"], "effects": [("unknown",)], "dest": None, "t": t})
+            out.append({"key": None, "bb": i, "line": t["line"], "effects": [("unknown",)], "dest": None, "t": t, "flows_out": True})
             continue
         last = nm.split("::")[-1]
         effects = [("unknown",)]
@@ -210,8 +216,21 @@ def ops(prog, b):
             effects = [("read",)]
         elif last == "set" and len(t["args"]) == 2 and t["args"][1]["k"] == "const" and t["args"][1].get("int") is not None:
             effects = [("const", t["args"][1]["int"])]
-        out.append({"key": key, "bb": i, "line": t["line"], "effects": effects,
-                    "dest": t["dest"]["l"] if t.get("dest") and not t["dest"]["p"] else None, "t": t})
+        dest_l = t["dest"]["l"] if t.get("dest") and not t["dest"]["p"] else None
+        dest_ty = b.locals[dest_l]["s"].replace(" ", "") if dest_l is not None else "?"
+        # does anything the closure saw leave it?  the call's value, or a captured `&mut`
+        unit_like = dest_ty in ("()", "std::result::Result<(),std::thread::AccessError>")
+        mut_capture = False
+        for a in t["args"][1:]:
+            if a["k"] in ("copy", "move") and not a["place"]["p"]:
+                cds = defs.get(a["place"]["l"], [])
+                if len(cds) == 1 and cds[0][0] == "stmt" and cds[0][2].get("k") == "aggregate":
+                    for o in cds[0][2].get("ops", []):
+                        ty_ = (o.get("place") or {}).get("ty", "") or o.get("ty", "")
+                        if ty_.startswith("&mut"):
+                            mut_capture = True
+        out.append({"key": key, "bb": i, "line": t["line"], "effects": effects, "dest": dest_l, "t": t,
+                    "flows_out": not unit_like or mut_capture})
     return out
 
 
@@ -307,6 +326,8 @@ def net_effect(prog, b, key, per_fn, _stack=()):
                             live.discard(l)
                         else:
                             live.add(l)
+                    elif rv["k"] == "use" and rv["op"]["k"] == "const":
+                        live.add(l)          # a unit-struct guard written as a constant
                     elif rv["k"] == "use" and rv["op"]["k"] in ("move", "copy") and not rv["op"]["place"]["p"] and rv["op"]["place"]["l"] in tracked:
                         src = rv["op"]["place"]["l"]
                         if src in live:
@@ -361,6 +382,13 @@ def net_effect(prog, b, key, per_fn, _stack=()):
                 for a in t["args"]:
                     if a["k"] == "move" and not a["place"]["p"] and a["place"]["l"] in live:
                         live.discard(a["place"]["l"])
+                # a guard handed back by a callee is ours now (its constructor's own change was counted with its Drop)
+                if t.get("dest") and not t["dest"]["p"] and t["dest"]["l"] in tracked and cb is not None:
+                    live.add(t["dest"]["l"])
+                    if d2 is not None:
+                        dd = drop_delta.get(tracked[t["dest"]["l"]], {None})
+                        # undo the Drop that the constructor's summary already charged: it will be charged where we drop it
+                        d2 = d2 - next(iter(dd)) if len(dd) == 1 and None not in dd else None
             if t["k"] == "drop" and not t["place"]["p"] and t["place"]["l"] in tracked and t["place"]["l"] in live and d2 is not None:
                 g = tracked[t["place"]["l"]]
                 dd = drop_delta.get(g, {None})
@@ -370,7 +398,11 @@ def net_effect(prog, b, key, per_fn, _stack=()):
                     d2 = None
                 live.discard(t["place"]["l"])
             if t["k"] == "return":
-                # guards still alive at return are dropped by the caller of this frame only if returned; locals were dropped above
+                # a guard moved into the return place leaves with the caller, who will drop it: count its Drop here, so that
+                # a constructor `Guard::new()` (+1, returns the guard) is seen as balanced with the guard's Drop (-1)
+                if 0 in live and 0 in tracked and d2 is not None:
+                    dd = drop_delta.get(tracked[0], {None})
+                    d2 = d2 + next(iter(dd)) if len(dd) == 1 and None not in dd else None
                 results.add(d2)
                 continue
             out_states.add((d2, frozenset(live)))
